@@ -284,6 +284,9 @@ _C08P = [
     for k, sym, shape in (("index_arr", "i in I-JSON, element payloads", "$[i] on an array of 3"), ("index_scalar", "i, scalar", "$[i] on an int"),
                           ("wild_arr", "element payloads", "$[*] on an array of 3"), ("wild_empty", "-", "$[*] on []"),
                           ("name_obj", "member values", "$.a on {b,a}"), ("name_arr", "payloads", "$.a on an array"), ("root", "scalar", "$ on an int"))
+] + [
+    H("query", "c08_process_slice_arr", funcs=_PROC + ["query::selector::process_slice"], symbolic="start,end,step each absent or in I-JSON, element payloads",
+      shape="$[s:e:st] on an array of 3: always Ok, elements of the array, each at most once, monotone order", est=200, timeout=900),
 ]
 PROPS["C08"] = _C08P + PROPS["C11"] + [h for h in PROPS["C01"] if "wrong_container" in h["name"] or "selectors_on" in h["name"]] + [PROPS["C06"][0]]
 PROP_INFO["C08"] = {
@@ -293,6 +296,7 @@ PROP_INFO["C08"] = {
 PROPS["C12"] = [
     H("query", "c12_history", funcs=_PROC, symbolic="two documents' payloads, two indices (I-JSON)", shape="q1 on d1, q2 on d2, q1 on d1 again", est=40),
     H("query", "c12_projections", funcs=_PROC + ["QueryRef::val", "QueryRef::path"], symbolic="payloads, index", shape="val() / path() of the evaluation result", est=60),
+    H("query", "c12_history_wild", funcs=_PROC, symbolic="two documents' payloads, index (I-JSON)", shape="q1 on d1, $[*] on d2 and on d1, q1 on d1 again", est=100),
 ]
 PROP_INFO["C12"] = {
     "bounds": "PARTIAL: sequential history independence and document immutability for one-segment index queries on arrays of 3; val()/path() projections of QueryRef",
